@@ -278,11 +278,12 @@ def _resolve_place(body, place, depth=0):
     return l, tuple(e["f"] if isinstance(e, dict) and "f" in e else str(e) for e in proj)
 
 
-def _place_counter(body, place):
+def _place_counter(body, place, depth=0):
     """A counter kept in a field or behind a reference (`self.consumed += 1`, `*len += 1`): every write to that storage in
-    the body is a constant initialisation (possibly as a field of an aggregate) or `itself + small constant`."""
+    the body is a constant initialisation (possibly as a field of an aggregate), a copy of another such counter (the count
+    handed on by value to a helper), or `itself + small constant`."""
     tgt = _resolve_place(body, place)
-    if tgt is None or (1 <= tgt[0] <= body.argc):
+    if tgt is None or (1 <= tgt[0] <= body.argc) or depth > 3:
         return None
     base, path = tgt
     inits, steps = 0, 0
@@ -317,6 +318,9 @@ def _place_counter(body, place):
                     steps += 1
                 elif rv["k"] == "binop" and rv["op"].startswith("Add") and const_int(body, rv["b"]) is not None and 0 <= const_int(body, rv["b"]) <= 8:
                     steps += 1
+                elif rv["k"] == "use" and op_place(rv["op"]) is not None and _resolve_place(body, op_place(rv["op"])) not in (None, (base, path)) \
+                        and _place_counter(body, op_place(rv["op"]), depth + 1) is not None:
+                    inits += 1
                 else:
                     return None
             elif len(r[1]) < len(path) and path[:len(r[1])] == r[1]:
@@ -335,7 +339,7 @@ def _place_counter(body, place):
                     inits += 1
                 else:
                     return None
-    return (inits, steps) if inits >= 1 and steps >= 1 else None
+    return (inits, steps) if inits >= 1 and (steps >= 1 or depth > 0) else None
 
 
 def _nonzero_test_edges(body, x):
